@@ -227,6 +227,8 @@ impl<T: Ord> MemoryBoundedQueue<T> {
         let mut inner = self.inner.lock().unwrap();
 
         if inner.items.is_empty() {
+            #[cfg(ragc_verif_sched)]
+            std::qevent("q.try_none", 0, inner.current_size as i64);
             return None;
         }
 
